@@ -195,7 +195,12 @@ def main(mod, argv=None):
 
     t0 = time.time()
     deadline = t0 + args.budget if args.budget else None
-    tasks = list(mod.tasks(args.tier, seed))
+    try:
+        tasks = list(mod.tasks(args.tier, seed))
+    except Exception:
+        print(f'HARNESS-ERROR property={prop}: task enumeration raised', file=sys.stderr)
+        traceback.print_exc()
+        return 2
     agg, completed = run_tasks(mod, tasks, deadline)
     wall = time.time() - t0
 
